@@ -1415,38 +1415,42 @@ def run(ck: Ck) -> None:
     fut_hyg.result()
     pool.shutdown(wait=True)
     lap('hygiene')
-    base = str(ck.scratch / 'base.bsp')
+    base: str | None = str(ck.scratch / 'base.bsp')
     try:
         with U.time_limit(U.IMPL_TIME_LIMIT_BIG):
             U.make_base(str(REPO / 'tests' / 'test_vec' / 'rot_main.bsp'), base)
     except (Exception, U.ImplTimeout) as e:      # noqa: BLE001
-        # the repository's own test map cannot be read and saved any more: nothing else can run, and this is a failing input
-        ck.violation('base-file:read-or-save', f'the test map tests/test_vec/rot_main.bsp cannot be read, given an empty entity lump and saved: '
+        # the repository's own test map cannot be read and saved any more: no world can be generated, and this is a failing input.
+        # The correspondences that do not need a file still run (they may show which layer broke).
+        ck.violation('base-file:read-or-save', f'the test map tests/test_vec/rot_main.bsp cannot be read, given an empty entity lump, saved and read again: '
                                                f'{type(e).__name__}: {e}'[:300],
                      {'how': 'harness.c11_util.make_base(<repo>/tests/test_vec/rot_main.bsp, <scratch>/base.bsp)', 'error': f'{type(e).__name__}: {e}'[:300]})
-        ck.explain('instance:')
-        ck.explain('correspondence:')
-        ck.explain('translate:')
-        ck.explain('build:')
-        return
+        base = None
     wd = str(ck.scratch)
     ex = pending = None
     ties_before = len(ck.tie_broken)
     if built:
-        ex, pending = start_correspondences(ck, [corr_struct(ck, side), corr_rowsize(ck), corr_rle(ck), corr_find(ck), corr_tex(ck, base), corr_ent(ck),
-                                                 corr_phys(ck, base), corr_deferred(ck)])
+        gens = [corr_struct(ck, side), corr_rowsize(ck), corr_rle(ck), corr_find(ck), corr_ent(ck), corr_deferred(ck)]
+        if base is not None:
+            gens += [corr_tex(ck, base), corr_phys(ck, base)]
+        ex, pending = start_correspondences(ck, gens)
         lap('correspondence_cases')
     try:
         # the coqc runs of the correspondences go on in the background while the implementation is searched
-        guarded(ck, 'reject_probes', reject_probes, ck, base, wd)
-        guarded(ck, 'output_delay_probe', high_precision_delay_probe, ck, base, wd)
-        lap('reject_probes')
-        guarded(ck, 'search', search, ck, base, wd)
-        lap('search')
+        if base is not None:
+            guarded(ck, 'reject_probes', reject_probes, ck, base, wd)
+            guarded(ck, 'output_delay_probe', high_precision_delay_probe, ck, base, wd)
+            lap('reject_probes')
+            guarded(ck, 'search', search, ck, base, wd)
+            lap('search')
     finally:
         if ex is not None:
             finish_correspondences(ex, pending)
             lap('correspondence_results')
+    if base is None:
+        for pref in ('instance:', 'correspondence:', 'translate:', 'build:'):
+            ck.explain(pref)
+        return
     if len(ck.tie_broken) > ties_before and not ck.violations and not ck.thorough:
         # a correspondence broke after the search had started with the small budget and nothing concrete was found: search again
         # with the escalated budget (ck.budget now returns the thorough size)
